@@ -276,7 +276,7 @@ def settings_dir(lang):
     return d
 
 
-def observe(files, lang, rename=None):
+def observe(files, lang, rename=None, prog=None):
     """run the pipeline -> dict of normalised observations (positions are (unit, line); the fresh name is mapped
     back to the original one)."""
     back = (lambda n: rename["name"] if (rename and n == rename["fresh"]) else n)
@@ -294,11 +294,22 @@ def observe(files, lang, rename=None):
 
         obs = {"bindings": {}, "call_graph": set(), "call_paths": set(), "flows": set()}
         for s in b.symbols:
-            if s["name"].startswith("%"):
-                continue
+            if s["name"].startswith("%") or s["op"] == "variable_decl":
+                continue          # (whether a repeated `var` keeps its own declaration row is representation)
             d = b.describe(s["symbol_id"])
             if d["kind"] == "decl":
-                tgt = ("decl", d["unit"], d["line"], d["op"], back(P.decl_name(d)))
+                # identity of the bound VARIABLE, not of the row: lian may keep one row per `var` statement or
+                # only the first one, depending on unrelated declarations
+                if lang == "python":
+                    tgt = ("decl", d["unit"], d["owner"][0], d["owner"][1], back(P.decl_name(d)),
+                           "import" if d["op"] in ("import_stmt", "from_import_stmt") else "")
+                else:
+                    md = prog.decl_at.get((d["line"], d["name"], "param" if d["op"] == "parameter_decl" else "decl")) \
+                        if prog is not None else None
+                    if md is not None:
+                        tgt = ("decl", md.scope.kind, md.scope.line, back(md.name))
+                    else:
+                        tgt = ("row", d["unit"], d["line"], d["op"], back(d["name"]))
             elif d["kind"] == "module":
                 tgt = ("module", d["path"])
             else:
@@ -360,7 +371,9 @@ def check_meta(case, out):
             ren["name"], ren["fresh"], bad))
         return
     # 1. the original program must not touch an open known finding (stepped over, counted)
-    o1, b1 = observe(case["files"], lang)
+    prog1 = J.Program(copy.deepcopy(case["tree"])) if lang == "javascript" else None
+    prog2 = J.Program(copy.deepcopy(case["tree2"])) if lang == "javascript" else None
+    o1, b1 = observe(case["files"], lang, prog=prog1)
     if "error" in o1:
         out.discrepancies.append(((lang, "rename", "crash", "original"), "lian failed on the original: " + o1["error"]))
         return
@@ -387,7 +400,7 @@ def check_meta(case, out):
         out.stepovers = sorted(set(out.stepovers))
         if not os.environ.get("C05_META_NO_SKIP"):
             return
-    o2, b2 = observe(case["renamed"], lang, rename=ren)
+    o2, b2 = observe(case["renamed"], lang, rename=ren, prog=prog2)
     if "error" in o2:
         out.discrepancies.append(((lang, "rename", "crash", "renamed"), "lian failed on the renamed program: " + o2["error"]))
         return
